@@ -152,7 +152,7 @@ def canon_val(v):
         return [0, int(v)]
     if isinstance(v, tuple) and all(is_atom(x) for x in v):
         return [1, [int(x) for x in v]]
-    raise AssertionError("result outside the value domain of the model: %r" % (v,))
+    return [9, []]     # outside the value domain of the model: never equals a model outcome
 
 
 def canon_diagram(d):
